@@ -185,6 +185,51 @@ CHECKS = {
    design_ref="DESIGN.md §7 C19",
    technique="Lean 4 theorems over Rat model of lattice construction from Qhull output + exact differential check",
    note=BASE_NOTE + " scipy.spatial.Voronoi (Qhull) is an external kernel whose output is the model's input; inputs within 1e-9 of a rounding tie or of the cut-off are rejected."),
+ "C01": dict(
+   category="proof",
+   text="Assembled from C02 (matrix = true tangents), C11 (resampled points stay on the same circle), C05 (solver output certified optimal) and "
+        "the theorems here: a Voronoi ridge is perpendicular to its site difference and the Maxwell pulls at a vertex of any degree sum to zero; "
+        "conformal (Moebius) images keep force balance; the normalised true tensions solve the augmented system exactly; with an injective "
+        "augmented matrix every minimiser over the non-negative candidates is true tension / mean with zero multiplier. Per run: Maxwell / "
+        "Moebius tissues at random poses and samplings, optional generate_mesh(ne=2..12), all back-ends, both fits: reported tensions against "
+        "truth within a conditioning-scaled tolerance on well-posed systems; the matrix against the Lean model and the solution's exact "
+        "certificate on the very systems solved. Float rounding is outside the theorems (partial in that sense). D2 cases are known findings.",
+   design_ref="DESIGN.md §7 C01",
+   technique="Lean 4 theorems (ground-truth balance, uniqueness) + certified solve + closed-form ground-truth comparison",
+   note=BASE_NOTE + " Systems with more unknowns than equations or sigma_min < 1e-3 sigma_max are counted as not uniquely determined and not asserted."),
+ "C03": dict(
+   category="proof",
+   text="Theorems: with exact resultants b = A tau and sum tau = n the vector (tau, 0) solves the augmented system exactly and, with an injective "
+        "augmented matrix, is the only minimiser over non-negative candidates; the non-negative least-squares fit is non-expansive in the right-hand "
+        "side (||M z' - M z||^2 <= ||b' - b||^2 for certified solutions) and three-decimal rounding moves b by at most len*(5e-4)^2 — this is the "
+        "tolerance implied by the rounding. Independence of numbering and time steps: C12 small-motion theorem + C13 finite differences. Per run: "
+        "series built around the tested frame (first/middle/last) from closed-form tangents and arbitrary positive tensions, every frame "
+        "renumbered, unequal steps, all back-ends: recovered tensions within (rounding + coefficient tolerance)/sigma_min, certificate checked exactly.",
+   design_ref="DESIGN.md §7 C03",
+   technique="Lean 4 theorems (uniqueness, non-expansiveness of NNLS) + constructed-dynamics ground truth",
+   note=BASE_NOTE),
+ "C06": dict(
+   category="proof",
+   text="Theorems for translations, positive scalings, rational rotations and the reflection: the reference tangent is equivariant, the coded "
+        "rule is translation/scale invariant and equivariant under quarter turns but not under general rotations (witness; finding D2); "
+        "curvature ingredients, areas and area signs transform as they should; rotating every junction's (x,y) residual pair preserves the "
+        "squared residual; the adimensional right-hand side is unit free. Per run: original vs transformed pose (translation to 1e4 sizes, any "
+        "rotation, reflection, scale 1e-3..1e3): coefficient pairs, tensions per physical interface, pressures per physical cell; dynamic tensions "
+        "under length and time-unit factors. Known findings: D2 and KF4 (multiplier column not covariant for tissues out of balance).",
+   design_ref="DESIGN.md §7 C06",
+   technique="Lean 4 equivariance theorems over Rat models + metamorphic differential check",
+   note=BASE_NOTE + " Irrational rotation angles are covered by the metamorphic run only."),
+ "C07": dict(
+   category="proof",
+   text="Theorems (arbitrary id type): the interfaces of a cell do not depend on where its cycle starts (permutation) nor on its sense (each "
+        "path reversed), relabelling commutes with the split, the de-duplicated interface set and its size depend only on the candidate paths "
+        "up to reversal, least squares does not depend on the order of equations and unknowns; plus C02 vectorFromVertex_reverse and C04 "
+        "row_joint_flip/row_swap_cells. Per run: one physical tissue stored in several ways (ids with gaps, cycle shifts, any subset of cells "
+        "reversed, construction order shuffled): same interface set, equations, tensions, pressures; each storage's interface list against the model. "
+        "End-to-end renumbering is decided by this run, not by a theorem.",
+   design_ref="DESIGN.md §7 C07",
+   technique="Lean 4 permutation/reversal theorems over the cycle-split model + metamorphic differential check",
+   note=BASE_NOTE),
 }
 
 NOT_APPLICABLE = {
